@@ -1143,7 +1143,7 @@ func (fx *FnExec) mergeStates(ins []incoming) *State {
 				}
 			} else if strings.HasSuffix(g, "|called") {
 				res.ghost[g] = fx.mergeVal(cond, v, c.False())
-			} else if strings.HasSuffix(g, "|count") {
+			} else if strings.HasSuffix(g, "|count") || strings.HasSuffix(g, "|seq") || g == "callseq" {
 				res.ghost[g] = fx.mergeVal(cond, v, fx.bv64(0))
 			} else {
 				res.ghost[g] = v
@@ -1153,7 +1153,7 @@ func (fx *FnExec) mergeStates(ins []incoming) *State {
 			if _, ok := in.st.ghost[g]; !ok {
 				if strings.HasSuffix(g, "|called") {
 					res.ghost[g] = fx.mergeVal(cond, c.False(), rv)
-				} else if strings.HasSuffix(g, "|count") {
+				} else if strings.HasSuffix(g, "|count") || strings.HasSuffix(g, "|seq") || g == "callseq" {
 					res.ghost[g] = fx.mergeVal(cond, fx.bv64(0), rv)
 				}
 			}
